@@ -322,7 +322,7 @@ def run(prop, tier, seed, replay=None):
             tr = os.path.join(work, 'limit_%s.ndjson' % config)
             env = dict(os.environ, TSAN_OPTIONS='halt_on_error=0:exitcode=66')
             try:
-                p = subprocess.run([exe, 'limit', tr, '3', '12', '4000', str(300 if tier == 'quick' else 5000), str(seed)],
+                p = subprocess.run([exe, 'limit', tr, '3', '12', '4000', str(2000 if tier == 'quick' else 30000), str(seed)],
                                    stdout=subprocess.PIPE, stderr=subprocess.STDOUT, timeout=600, env=env)
                 rc, o = p.returncode, p.stdout.decode(errors='replace')
             except subprocess.TimeoutExpired:
